@@ -151,6 +151,18 @@ impl GraphData {
                 sh.both_accept += 1;
             }
         }
+        // distinct LUT masks this definition needs (fast loops always use one; tests with more than 2 comparisons too)
+        let mut masks: Vec<Vec<(u8, u8)>> = vec![];
+        for (si, s) in self.states.iter().enumerate() {
+            for (ranges, t) in &s.normal {
+                let is_loop = *t == si;
+                let is_test = !is_loop && s.normal.len() <= 2 && cmp_ops(ranges) > 2;
+                if (is_loop || is_test) && !masks.contains(ranges) {
+                    masks.push(ranges.clone());
+                }
+            }
+        }
+        sh.max_lut_masks = masks.len();
         sh.skip_leaves = self.leaves.iter().filter(|l| l.kind == "::<skip>").count();
         sh.callback_leaves = self.leaves.iter().filter(|l| l.has_callback).count();
         sh
@@ -204,10 +216,13 @@ pub struct Shapes {
     pub both_accept: usize,
     pub skip_leaves: usize,
     pub callback_leaves: usize,
+    /// maximal number of distinct LUT masks needed by one definition (8 masks per table)
+    pub max_lut_masks: usize,
 }
 
 impl Shapes {
     pub fn add(&mut self, o: &Shapes) {
+        self.max_lut_masks = self.max_lut_masks.max(o.max_lut_masks);
         self.states += o.states;
         self.jump_table += o.jump_table;
         self.lut_test += o.lut_test;
@@ -226,7 +241,7 @@ impl Shapes {
             "range_with_exceptions_or_multi": self.range_except, "simple_compare": self.simple_cmp,
             "fast_loop": self.fast_loop, "eoi_edge": self.eoi_edge, "early_accept": self.early_accept,
             "late_accept": self.late_accept, "early_and_late": self.both_accept,
-            "skip_leaves": self.skip_leaves, "callback_leaves": self.callback_leaves})
+            "skip_leaves": self.skip_leaves, "callback_leaves": self.callback_leaves, "max_lut_masks_in_one_definition": self.max_lut_masks})
     }
 }
 
